@@ -144,6 +144,20 @@ fn adversarial_int(r: &mut Rng, bits: u32, signed: bool) -> (bool, u128) {
     let mag: u128 = match r.below(10) {
         // log-uniform distance below the top of the type, through the whole band that rounds up to 2^bits
         // (and a little beyond it): the branch of the wide conversion that measures the distance from MAX
+        8 if bits >= 16 && r.coin() => {
+            // around the limits of every NARROWER integer type (2^7, 2^8, 2^15, ..., 2^64) and inside the band
+            // [2^(w-1), 2^w) that fits the unsigned but not the signed type of width w
+            let ws: Vec<u32> = [7u32, 8, 15, 16, 31, 32, 63, 64, 127].iter().cloned().filter(|w| *w < bits || (*w == bits - 1 && signed)).collect();
+            let w = *r.pick(&ws);
+            let b = 1u128 << w;
+            match r.below(5) {
+                0 => b - 1,
+                1 => b,
+                2 => b + 1,
+                3 => b - 1 - (r.u128() & ((b >> 1) - 1).max(1)) % (b >> 1).max(1),
+                _ => b + (r.next() as u128 & 0xff),
+            }
+        }
         9 if bits > 54 => {
             let j = r.below((bits - 52) as u64) as u32;
             let d = (1u128 << j) + (r.u128() & ((1u128 << j) - 1)) * (r.below(2) as u128);
@@ -389,8 +403,14 @@ pub fn cmp(m: &mut M, r: &mut Rng, n: u64) {
             cmp_all(m, A::R(4), A::R(5));
             cmp_all(m, A::R(4), A::R(6));
             cmp_all(m, A::R(6), A::R(0));
-            m.call("base", "min", "inh", Some(7), &[A::R(4), A::R(0)]);
-            m.call("base", "max", "inh", Some(7), &[A::R(0), A::R(4)]);
+            for spm in SP3 {
+                m.call("base", "min", spm, Some(7), &[A::R(4), A::R(0)]);
+                m.call("base", "max", spm, Some(7), &[A::R(0), A::R(4)]);
+                m.call("base", "max", spm, Some(7), &[A::R(4), A::R(0)]);
+                m.call("base", "min", spm, Some(7), &[A::R(0), A::R(4)]);
+                m.call("base", "max", spm, Some(7), &[A::R(6), A::R(0)]);
+                m.call("base", "min", spm, Some(7), &[A::R(0), A::R(6)]);
+            }
             m.call("base", "is_valid", "inh", None, &[A::R(4)]);
         }
     }
@@ -522,6 +542,23 @@ pub fn spell(m: &mut M, r: &mut Rng, n: u64) {
             }
             3 => {
                 load_valid(m, r, 1, -2, 3);
+            }
+            4 | 5 => {
+                // the same (4) or the negated (5) HIGH word with another low word: the magnitudes of the high words
+                // tie, the low words do not - whatever is decided by comparing high words is decided by the order
+                let x = m.tf(0);
+                let h = if scen == 4 { x.hi() } else { -x.hi() };
+                let mut done = false;
+                for _ in 0..6 {
+                    let l = match r.below(3) { 0 => lo_candidate(r, h), 1 => x.lo() * pow2(-(r.range(1, 30) as i32)), _ => -x.lo() * 0.75 };
+                    if l.to_bits() != x.lo().to_bits() && h != 0.0 && m.load(1, h, l) {
+                        done = true;
+                        break;
+                    }
+                }
+                if !done {
+                    load_valid(m, r, 1, emin, emax);
+                }
             }
             _ => load_valid(m, r, 1, emin, emax),
         }
